@@ -6,7 +6,9 @@
 //!                -> {"none":bool,"w","h","ndiff","nbig","max","nonblank_a","nonblank_b","bbox":[x,y,w,h]}
 //!   export-ts    payload `opts\tdoc`  for every isolated group: the transform recorded by the first `layer` trace
 //!                event of render_node (identity and scale 2) next to the node's ts / abs_ts / abs layer box
-//!   node-by-id   payload `opts\tdoc\tid,id,...`  Tree::node_by_id vs the harness's own pre-order walk
+//!   node-by-id   payload `opts\tdoc\tid,id,...[\tid,id,...]`  Tree::node_by_id vs the harness's own pre-order walk; ids that
+//!                occur on more than one renderable node are listed in "dups"; the optional second list holds ids that
+//!                must NOT be found (their source element lives inside marker / pattern / clipPath / mask / symbol / defs)
 use crate::dump::{esc, num};
 use crate::util::*;
 use tiny_skia::Transform;
@@ -79,7 +81,8 @@ fn op_export_pair(payload: &str) -> String {
         None => return "{\"error\":\"node_by_id returned None\"}".to_string(),
     };
     let s: f32 = f[4].parse().unwrap_or(1.0);
-    let ab = node.abs_bounding_box();
+    // the box a leaf's layer comes from: the absolute stroke box (for images that is the absolute box)
+    let ab = node.abs_stroke_bounding_box();
     let lb = match node.abs_layer_bounding_box() {
         Some(b) => b,
         None => {
@@ -87,7 +90,7 @@ fn op_export_pair(payload: &str) -> String {
             let mut pm = tiny_skia::Pixmap::new(1, 1).unwrap();
             let r = resvg::render_node(node, Transform::identity(), &mut pm.as_mut());
             return format!(
-                "{{\"none\":{},\"no_layer_box\":true,\"kind\":\"{}\",\"abs_bbox\":{}}}",
+                "{{\"none\":{},\"no_layer_box\":true,\"kind\":\"{}\",\"abs_sbbox\":{}}}",
                 r.is_none(), kind(node), rect4(ab.x(), ab.y(), ab.width(), ab.height())
             );
         }
@@ -216,10 +219,18 @@ fn op_node_by_id(payload: &str) -> String {
     walk(tree.root(), "", &mut nodes);
     let mut bad = Vec::new();
     let mut seen: Vec<&str> = Vec::new();
+    let mut dups: Vec<String> = Vec::new();
     let mut nids = 0usize;
     for (p, n) in &nodes {
         let id = n.id();
-        if id.is_empty() || seen.contains(&id) {
+        if id.is_empty() {
+            continue;
+        }
+        if seen.contains(&id) {
+            let e = esc(id);
+            if !dups.contains(&e) {
+                dups.push(e);
+            }
             continue;
         }
         seen.push(id);
@@ -244,7 +255,25 @@ fn op_node_by_id(payload: &str) -> String {
             bad.push(format!("{{\"id\":{},\"expected\":null,\"found_id\":{},\"found_kind\":\"{}\"}}", esc(id), esc(found.id()), kind(found)));
         }
     }
-    format!("{{\"ids\":{},\"absent\":{},\"bad\":[{}]}}", nids, absent, bad.join(","))
+    let mut forbidden = 0usize;
+    if f.len() > 3 {
+        for id in f[3].split(',') {
+            if id.is_empty() {
+                continue;
+            }
+            forbidden += 1;
+            if let Some(found) = tree.node_by_id(id) {
+                bad.push(format!(
+                    "{{\"id\":{},\"expected\":null,\"why\":\"the element with this id is not rendered directly\",\"found_kind\":\"{}\"}}",
+                    esc(id), kind(found)
+                ));
+            }
+        }
+    }
+    format!(
+        "{{\"ids\":{},\"absent\":{},\"forbidden\":{},\"dups\":[{}],\"bad\":[{}]}}",
+        nids, absent, forbidden, dups.join(","), bad.join(",")
+    )
 }
 
 pub fn dispatch(op: &str, _args: &[String]) -> bool {
